@@ -1,11 +1,18 @@
 import Gmx.Lemmas.Perp
+import Gmx.Lemmas.Guard
 /-!
 # C09 — positions are left healthy, and only unhealthy ones can be liquidated
 
 Statements are about `Gmx.Model.Perp` (transcription of `position.rs`, `increase_position.rs`,
 `decrease_position/*`), tied to the implementation by the stateful `perp` correspondence engine,
-and about `guardedDecrease`, the transcription of the store's liquidation / ADL guard in
-`programs/store/src/ops/order.rs` (*modelled*, no harness).
+and about the store's liquidation / ADL guard in `programs/store/src/ops/order.rs`
+(`execute_decrease_position`): its checks are EXTRACTED from the source on every run into
+`Gmx.Gen.C09.checks` by the fail-closed `translator/c09_guard.py` (operands, comparison macros,
+error codes, order relative to the model call, the flags handed to `decrease`); `runGuard` gives
+the table its meaning and `guard_generated_is_model` shows that it is the hand transcription
+`guardedDecrease`, so the guard theorems quantify over the generated table. What stays trusted:
+the meaning of the operand names (`Term`) — e.g. that `pnl_factor_exceeded(ForAdl)` is
+`adlFactorBefore` — and that the accounts' `Market`/`Position` implement the model traits.
 
 * a successful increase ends with `check_liquidatable(min collateral, not for liquidation) = None`;
 * a decrease that leaves the position open ends with `check_liquidatable(false, false) = None`;
@@ -224,21 +231,56 @@ theorem adl_guard_spec {W U : Nat} {m m' : Market} {c : PerpCfg} {pr : Prices} {
       · cases h
       · rename_i m1 p1 r1 hd
         split at h
-        · rename_i f1 pv1 mn ha hm
+        · cases h
+        · rename_i f1 pv1 ha
           split at h
           · cases h
-          · split at h
+          · rename_i h1
+            split at h
             · cases h
-            · rename_i h1 h2
-              cases h
-              have hmn := Lem.toSigned_some hm
-              unfold pnlExceeded at hex
-              simp only [Bool.and_eq_true, decide_eq_true_eq] at hex
-              exact ⟨f0, f1, pv0, pv1, rfl, ha, hex.1, hex.2, by omega, by omega, hd⟩
-        · cases h
+            · rename_i mn hm
+              split at h
+              · cases h
+              · rename_i h2
+                cases h
+                have hmn := Lem.toSigned_some hm
+                unfold pnlExceeded at hex
+                simp only [Bool.and_eq_true, decide_eq_true_eq] at hex
+                exact ⟨f0, f1, pv0, pv1, rfl, ha, hex.1, hex.2, by omega, by omega, hd⟩
     · simp [hex, Except.map] at h
 
+/-- **the generated guard table is the transcribed guard**: interpreting the checks extracted
+from `execute_decrease_position` (before-checks of the order's tag, the model's `decrease` with
+the flags of the source, after-checks) is `guardedDecrease`, for every order tag and input. -/
+theorem guard_generated_is_model (W U : Nat) (m : Market) (c : PerpCfg) (pr : Prices) (p : Pos) (sd wd : Nat)
+    (ins cap : Bool) (tag : OrderTag) :
+    runGuard Gmx.Gen.C09.checks W U m c pr p sd wd ins cap tag = guardedDecrease W U m c pr p sd wd ins cap tag :=
+  Lem.runGuard_generated_eq W U m c pr p sd wd ins cap tag
+
+/-- `liquidation_full_close` for the guard as extracted from the source. -/
+theorem liquidation_full_close_generated {W U : Nat} {m m' : Market} {c : PerpCfg} {pr : Prices} {p p' : Pos} {sd wd : Nat}
+    {ins cap : Bool} {r : DecreaseReport}
+    (h : runGuard Gmx.Gen.C09.checks W U m c pr p sd wd ins cap .liquidation = .ok (m', p', r)) :
+    r.sizeDelta = p.sizeUsd ∧ r.shouldRemove = true ∧ p'.sizeUsd = 0 ∧ p'.sizeTokens = 0 ∧ p'.collateral = 0 ∧
+    ∃ reason, checkLiquidatable W U m c pr p true true = .ok (some reason) := by
+  rw [guard_generated_is_model] at h
+  exact liquidation_full_close h
+
+/-- `adl_guard_spec` for the guard as extracted from the source: a successful ADL order implies
+the side's pnl factor exceeded `ForAdl` before, strictly decreased, and stays ≥ `MinAfterAdl`. -/
+theorem adl_guard_spec_generated {W U : Nat} {m m' : Market} {c : PerpCfg} {pr : Prices} {p p' : Pos} {sd wd : Nat}
+    {ins cap : Bool} {r : DecreaseReport}
+    (h : runGuard Gmx.Gen.C09.checks W U m c pr p sd wd ins cap .adl = .ok (m', p', r)) :
+    ∃ f0 f1 : Int, ∃ pv0 pv1 : Nat,
+      pnlFactorWithPoolValue W U m pr p.isLong true = some (f0, pv0) ∧
+      pnlFactorWithPoolValue W U m' pr p.isLong true = some (f1, pv1) ∧
+      0 < f0 ∧ m.cfg.pnlFactor .forAdl < f0.natAbs ∧ f1 < f0 ∧ (m'.cfg.pnlFactor .minAfterAdl : Int) ≤ f1 ∧
+      decrease W U m c pr p sd wd ⟨ins, false, cap⟩ = .ok (m', p', r) := by
+  rw [guard_generated_is_model] at h
+  exact adl_guard_spec h
+
 /-! ### Non-vacuity -/
+example : Gmx.Gen.C09.checks.length = 4 ∧ Gmx.Gen.C09.liquidationFlagIsLiquidationTag = true := by decide
 example : (increase 64 (10 ^ 9) { wMarket with oiL := {}, oitL := {}, collL := {}, primary := ⟨10 ^ 12, 10 ^ 14⟩ } wPerp wPrices
     { isLong := true, collLong := false } (3 * 10 ^ 9) (20 * 10 ^ 9)).toOption.map (fun x => x.2.1)
     = some wPos := by rfl
